@@ -25,6 +25,8 @@ TRUSTED = ["NumPy model skv/sarr.py; NumPy object arrays (Mode P)", "independent
 UNITS = {}
 
 
+
+
 def standin_uniform(ctx):
     import time
     from skv import core
@@ -254,3 +256,95 @@ def template_unit(kind):
 
 for _k in TEMPLATE_CLASSES:
     UNITS["template/" + _k] = template_unit(_k)
+
+
+def layout_unit(kind):
+    """LAYOUT (Mode I; nt, nverts, nfacets, nedges symbolic): the real _uniform run on symbolic connectivity tables.
+      LOCAL     every entry of the children k + j*nt of cell k is a vertex of cell k, the new node of one of ITS facets / edges, or ITS centre node
+      OLDVERT   child j contains the parent's vertex j; old vertices keep number and position
+      NEWNODE   node nverts + f is the mean of the vertices of facet f (3-D: nverts + e for edges, then facets, then cells): the numbers used in t are the columns of doflocs
+    requires the ENT contract of C11 for the tables (ranges, every facet/edge number occurs)"""
+    def run(ctx):
+        import importlib
+        from skv import sarr
+        from skv import term as tm
+        from skv.sarr import SArr
+        mod = importlib.import_module({"tri": "skfem.mesh.mesh_tri_1", "quad": "skfem.mesh.mesh_quad_1", "hex": "skfem.mesh.mesh_hex_1"}[kind])
+        cls = getattr(mod, {"tri": "MeshTri1", "quad": "MeshQuad1", "hex": "MeshHex1"}[kind])
+        fn = ctx.function(cls._uniform)
+        dim, nn, nfc, nvf, nec = {"tri": (2, 3, 3, 2, 0), "quad": (2, 4, 4, 2, 0), "hex": (3, 8, 6, 4, 12)}[kind]
+        nch = 2 ** dim
+        C = tm.const
+        with sarr.index_context() as c:
+            nt, nv, nf, ne = c.size("nt", 1), c.size("nv", 1), c.size("nf", 1), c.size("ne", 1)
+
+            class Self:
+                pass
+            me = Self()
+            me.doflocs = SArr.input("p", (dim, nv), tm.REAL)
+            me.t = SArr.input("t", (nn, nt), lo=0, hi=nv)
+            me.t2f = SArr.input("t2f", (nfc, nt), lo=0, hi=nf)
+            me.facets = SArr.input("facets", (nvf, nf), lo=0, hi=nv)
+            if nec:
+                me.t2e = SArr.input("t2e", (nec, nt), lo=0, hi=ne)
+                me.edges = SArr.input("edges", (2, ne), lo=0, hi=nv)
+            me._boundaries = me._subdomains = None
+            # ENT ONTO: the largest facet / edge number occurs
+            so, ko = c.skolem("so", 0, C(nfc)), c.skolem("ko", 0, nt.t)
+            c.add(tm.eq(me.t2f.get((so.t, ko.t)), tm.sub(nf.t, C(1))))
+            if nec:
+                se, ke = c.skolem("se", 0, C(nec)), c.skolem("ke", 0, nt.t)
+                c.add(tm.eq(me.t2e.get((se.t, ke.t)), tm.sub(ne.t, C(1))))
+            rec = {}
+
+            def replace(obj, **kw):
+                rec.update(kw)
+                return "refined"
+            with sarr.mode_i([mod], extra_globals=dict(replace=replace)):
+                cls._uniform(me)
+            t2, p2 = rec["t"], rec["doflocs"]
+            pre = "layout/%s" % kind
+            off_f = tm.add(nv.t, ne.t) if nec else nv.t            # number of the first facet node
+            off_c = tm.add(off_f, nf.t)                              # number of the first cell-centre node (quad, hex)
+            ntot = tm.add(off_c, nt.t) if kind != "tri" else off_c
+            ctx.prove(pre + "/shapes", fn, tm.and_(tm.eq(sarr._t(t2.shape[0]), C(nn)), tm.eq(sarr._t(t2.shape[1]), tm.mul(C(nch), nt.t)), tm.eq(sarr._t(p2.shape[0]), C(dim)),
+                                                  tm.eq(sarr._t(p2.shape[1]), ntot)), hyps=c.all_hyps(),
+                      clause="t.shape == (%d, %d*nt), doflocs.shape == (%d, nverts %s+ nfacets%s)" % (nn, nch, dim, "+ nedges " if nec else "", "" if kind == "tri" else " + nt"))
+            k = c.skolem("k", 0, nt.t)
+            for j in range(nch):
+                col = tm.add(tm.mul(C(j), nt.t), k.t)
+                ents = [t2.get((C(r), col)) for r in range(nn)]
+                cands = [me.t.get((C(a), k.t)) for a in range(nn)] + [tm.add(off_f, me.t2f.get((C(b), k.t))) for b in range(nfc)]
+                if nec:
+                    cands += [tm.add(nv.t, me.t2e.get((C(b), k.t))) for b in range(nec)]
+                if kind != "tri":
+                    cands.append(tm.add(off_c, k.t))
+                hy = c.all_hyps()
+                ctx.prove("%s/child%d/local" % (pre, j), fn, tm.and_(*[tm.or_(*[tm.eq(e, cd) for cd in cands]) for e in ents]), hyps=hy,
+                          clause="every vertex of child %d of cell k (column %d*nt + k) is a vertex of cell k, the new node of one of its facets%s%s" % (j, j, "/edges" if nec else "", "" if kind == "tri" else " or its centre node"))
+                if j < nn:
+                    ctx.prove("%s/child%d/oldvertex" % (pre, j), fn, tm.or_(*[tm.eq(e, me.t.get((C(j), k.t))) for e in ents]), hyps=hy, clause="child %d contains the parent's vertex %d" % (j, j))
+            v, f, i_ = c.skolem("v", 0, nv.t), c.skolem("f", 0, nf.t), c.skolem("i", 0, C(dim))
+            hy = c.all_hyps()
+            ctx.prove(pre + "/oldverts", fn, tm.eq(p2.get((i_.t, v.t)), me.doflocs.get((i_.t, v.t))), hyps=hy, clause="doflocs'[:, v] == p[:, v] for v < nverts")
+            mean = lambda tab, col, n: tm.div(_sumt([me.doflocs.get((i_.t, tab.get((C(a), col)))) for a in range(n)]), tm.const(Fraction(n), tm.REAL))
+            ctx.prove(pre + "/newnode/facet", fn, tm.eq(p2.get((i_.t, tm.add(off_f, f.t))), mean(me.facets, f.t, nvf)), hyps=hy,
+                      clause="doflocs'[:, first facet node + f] == mean of the vertices of facet f")
+            if nec:
+                e_ = c.skolem("e", 0, ne.t)
+                ctx.prove(pre + "/newnode/edge", fn, tm.eq(p2.get((i_.t, tm.add(nv.t, e_.t))), mean(me.edges, e_.t, 2)), hyps=c.all_hyps(), clause="doflocs'[:, nverts + e] == midpoint of edge e")
+            if kind != "tri":
+                ctx.prove(pre + "/newnode/centre", fn, tm.eq(p2.get((i_.t, tm.add(off_c, k.t))), mean(me.t, k.t, nn)), hyps=c.all_hyps(), clause="doflocs'[:, first centre node + k] == mean of the vertices of cell k")
+    return run
+
+
+def _sumt(ts):
+    from skv import term as tm
+    out = ts[0]
+    for t_ in ts[1:]:
+        out = tm.add(out, t_)
+    return out
+
+
+for _k in ("tri", "quad", "hex"):
+    UNITS["layout/%s" % _k] = layout_unit(_k)
